@@ -11,4 +11,5 @@ open PhQVerif Generated PhQVerif.Props.C13
 #print axioms incompressible_strain_ignored
 #print axioms all_formats
 #print axioms overloads_same_formula
+#print axioms PhQVerif.Props.C13.overloads_keep_precision
 #eval s!"COUNT C13.model_overload_rows {ModelOverloads.rows.length}"
